@@ -227,6 +227,48 @@ def check_faults_are_recorded(ck, prog, tier):
         ck.ob('C04-D7-faults-are-recorded', k, False,
               'a failing exchange does not end with an error recorded and the failure value: %s'
               % v['message'][:500], v['loc'], key=k)
+    check_handshake_faults_are_recorded(ck, prog, tier)
+
+
+def check_handshake_faults_are_recorded(ck, prog, tier):
+    """D7, handshake part - "unsupported firmware" is the fifth kind of error of the statement
+    and connect is the only place that records it: the connect analysis of C15 decides that a
+    handshake ends True only for a verified device whose version passed the minimum test, that
+    every other handshake records an error, and that an earlier error survives connecting again.
+    Those verdicts are taken over (same policy as for the exchange analysis: skipped when the
+    analysis cannot be carried out on this tree)."""
+    from . import c15
+    from ..interp import suspended_gaps, GAP_EVENTS
+    from ..ebb3 import Engine
+    sub = Check('C15', tier, ck.repo, quiet=True, out_dir=ck.out_dir)
+    try:
+        with suspended_gaps():
+            n0 = len(GAP_EVENTS)
+            base, cls, family = c15.most_derived(prog)
+            c15.check_connect(sub, Engine(prog, cls))
+            inner_gaps = [g for g in GAP_EVENTS[n0:] if g[0] != 'loop']
+    except AnalysisError as exc:
+        ck.saw('handshake_faults_rule', 'skipped: %s' % str(exc)[:200])
+        return
+    if inner_gaps:
+        ck.saw('handshake_faults_rule', 'skipped: the connect analysis met constructs it does '
+               'not model (%s)' % '; '.join('%s %s' % g[:2] for g in inner_gaps[:3]))
+        return
+    taken = ('C15-D2-verified', 'C15-D2-supported', 'C15-D2-error-kept',
+             'C15-D3-failure-recorded')
+    bad = [v for v in sub.violations if v['rule'] in taken]
+    ck.ob('C04-D7-faults-are-recorded', 'connect [%d obligations of the handshake analysis, '
+          '%d taken over as failed]' % (len(sub.obligations), len(bad)), True)
+    seen = set()
+    for v in bad:
+        k = 'via:%s:%s' % (v['rule'], v['key'])
+        if k in seen:
+            continue
+        seen.add(k)
+        ck.ob('C04-D7-faults-are-recorded', k, False,
+              'a handshake with an unverified / unsupported device does not end with an error '
+              'recorded (or clears the one recorded earlier): %s' % v['message'][:500],
+              v['loc'], key=k)
 
 
 def side_doors(ck, prog, family):
